@@ -86,6 +86,7 @@ func (g *gen) blockStatement() {
 			g.use("classOrInterfaceModifier.annotation")
 			g.annotation(false)
 		}
+		g.pendingLocal = true
 		switch g.pickW(4, 1, 1) {
 		case 0:
 			g.use("localTypeDeclaration.class")
